@@ -120,8 +120,9 @@ def gen_case(rng, i, tier):
         # register several partitions: all three 2-sets and all singletons (numerically different products)
         reg = []
         k = 0
-        for sub in list(itertools.combinations(names, 2)) + [(a,) for a in names]:
-            if rng.random() < 0.85:
+        only_single = rng.random() < 0.35  # dx, dy, dz only: the product has three factors whose order must not vary
+        for sub in ([] if only_single else list(itertools.combinations(names, 2))) + [(a,) for a in names]:
+            if only_single or rng.random() < 0.85:
                 reg.append([list(sub), [[f"m{k}", ["center"] * len(sub)]]])
                 k += 1
         rng.shuffle(reg)
